@@ -43,8 +43,9 @@ class HandlerImpl(Handler):
         restore_asking_the_user = RestoreAskingTheUser(self.input,
                                                        self.restorer,
                                                        my_output)
-        restore_asking_the_user.restore_asking_the_user(trashed_files,
-                                                        overwrite)
+        restore_asking_the_user.restore_asking_the_user(
+            [trashed_file.at_its_own_path() for trashed_file in trashed_files],
+            overwrite)
         my_output.apply_to(self.output)
 
     def report_no_files_found(self, directory):  # type: (str) -> None
